@@ -59,14 +59,14 @@ func c05provExtra(t *tr) string {
 		"Is": "arg1", "New": "str", "Errorf": "str",
 	}
 	c05provEmit(&b, t, "core/provider", [][3]string{
-		{"DecodeProvider", "Run", "decodeRun"},
-		{"JSONAmmoDecoder", "Decode", "jsonDecode"},
-		{"AmmoQueue", "Acquire", "queueAcquire"},
+		{"DecodeProvider", "Run", "srcDecodeRun"},
+		{"JSONAmmoDecoder", "Decode", "srcJsonDecode"},
+		{"AmmoQueue", "Acquire", "srcQueueAcquire"},
 	}, watch)
 	g := &tr{pkg: load("github.com/yandex/pandora/components/providers/grpc"), known: map[string]string{}, translating: map[string]bool{}}
 	c05provEmit(&b, g, "components/providers/grpc", [][3]string{
-		{"Provider", "Run", "grpcRun"},
-		{"Provider", "Acquire", "grpcAcquire"},
+		{"Provider", "Run", "srcGrpcRun"},
+		{"Provider", "Acquire", "srcGrpcAcquire"},
 	}, watch)
 	t.errs = append(t.errs, g.errs...)
 	return b.String()
